@@ -68,10 +68,16 @@ def unguarded_next_to_guarded(ctx: Ctx) -> None:
     while len(cases) < ctx.pick(60, 600) and tries < 20000:
         tries += 1
         e = EL.shared_expr_program(ctx.rng)
-        if '"boom"' not in json.dumps(e) and '"kboom"' not in json.dumps(e):
+        if '"boom"' not in json.dumps(e) and '"kboom"' not in json.dumps(e) and '"lboom"' not in json.dumps(e):
             continue
         obs = EL.run_sim(EL.build(e), ctx.rng, p_finish=ctx.rng.choice([0.15, 0.5, 0.85]))
         cases.append({"id": len(cases) + 1, "e": e, "ctx": EL.to_value({}), "run": EL.to_value({}), "obs": obs})
+    # errors that cannot be serialised (the exception holds a lock): run() still raises the task's own error
+    for e in (EL.call("lboom", EL.V(1)), EL.call("inc", EL.call("lboom", EL.V(2))),
+              {"k": "list", "items": [EL.call("inc", EL.V(1)), EL.call("twice", EL.call("lboom", EL.V(3)))]}):
+        for _ in range(2):
+            obs = EL.run_sim(EL.build(e), ctx.rng)
+            cases.append({"id": len(cases) + 1, "e": e, "ctx": EL.to_value({}), "run": EL.to_value({}), "obs": obs})
     raising = [c for c in cases if c["obs"]["t"] == "raise"]
     ctx.require(len(raising) >= 10, f"too few programs whose unguarded use must raise ({len(raising)})")
     bad = copy.deepcopy(raising[0])
